@@ -20,8 +20,15 @@ abbrev Bytes := List UInt8
 
 structure Params where
   parse : Bytes → Option Nat
+  /-- `time.Parse(time.RFC3339, …)` of the `.last-refresh` content succeeds -/
+  timeParses : Bytes → Bool := fun _ => true
   atomic : Bool := true
   fallbackOlder : Bool := true
+  /-- second `fix:` commit: `cleanupOldVersions` keeps the newest `cacheSize` files that PARSE (before: the
+  newest `cacheSize` names, usable or not) -/
+  validCleanup : Bool := true
+  /-- third `fix:` commit: `getCached` treats a missing / unparsable `.last-refresh` as "stale" (before: error) -/
+  tolerantRefresh : Bool := true
 
 def etagFile : String := ".etag"
 def lastModifiedFile : String := ".last-modified"
@@ -39,16 +46,26 @@ def isCacheName (s : String) : Bool :=
 /-- `fmt.Sprintf("autoconf-%d.json", timestamp)` -/
 def cfgName (now : Nat) : String := "autoconf-" ++ toString now ++ ".json"
 
+/-- insertion into a list sorted in descending order (structural, so that concrete cases evaluate in the kernel) -/
+def insertDesc (a : String) : List String → List String
+  | [] => [a]
+  | b :: l => if b ≤ a then a :: b :: l else b :: insertDesc a l
+
+/-- sort by name, descending — `slices.SortFunc(files, strings.Compare(b, a))`; names in one directory
+are distinct, so every correct sorting algorithm returns the same list -/
+def sortDesc : List String → List String
+  | [] => []
+  | a :: l => insertDesc a (sortDesc l)
+
 /-- `listCacheFiles`: directory entries that are not directories and whose name matches, sorted by
-name in descending order (`strings.Compare(b, a)`; names in one directory are distinct, so the
-unstable `slices.SortFunc` and a merge sort agree). -/
+name in descending order (`sortDesc`). -/
 def listCacheFiles (w : World) (dir : Path) : Except Errno (List String) :=
   match readDirNames w dir with
   | .error e => .error e
   | .ok names =>
     let fs := names.filter fun nm =>
       (match lstat w (dir ++ [nm]) with | .ok n => n.kind != .dir | .error _ => true) && isCacheName nm
-    .ok (fs.mergeSort fun a b => decide (b ≤ a))
+    .ok (sortDesc fs)
 
 /-- `os.ReadFile` + `json.Unmarshal` of one cache file -/
 def readParse (P : Params) (w : World) (dir : Path) (nm : String) : Option Nat :=
@@ -151,13 +168,42 @@ def removeAll (w : World) (dir : Path) : List String → Tr
       let t := removeAll r.1 dir fs
       { visited := r.1 :: t.visited, last := t.last, ok := t.ok, log := ("remove", f, "") :: t.log }
 
+/-- the repaired cleanup loop: walk the names newest first, keep a file while fewer than `cacheSize` usable
+ones have been kept and it parses, remove every other one (an error stops the loop) -/
+def cleanupLoop (P : Params) (dir : Path) (cacheSize : Nat) : World → Nat → List String → Tr
+  | w, _, [] => { visited := [], last := w, ok := true }
+  | w, kept, f :: fs =>
+    if kept < cacheSize && (readParse P w dir f).isSome then cleanupLoop P dir cacheSize w (kept + 1) fs
+    else
+      let r := remove w (dir ++ [f])
+      match r.2 with
+      | some _ => { visited := [], last := w, ok := false }
+      | none =>
+        let t := cleanupLoop P dir cacheSize r.1 kept fs
+        { visited := r.1 :: t.visited, last := t.last, ok := t.ok, log := ("remove", f, "") :: t.log }
+
 /-- `cleanupOldVersions` -/
-def cleanupOldVersions (w : World) (dir : Path) (cacheSize : Nat) : Tr :=
+def cleanupOldVersions (P : Params) (w : World) (dir : Path) (cacheSize : Nat) : Tr :=
   match listCacheFiles w dir with
   | .error _ => { visited := [], last := w, ok := false }
   | .ok files =>
     if files.length ≤ cacheSize then { visited := [], last := w, ok := true }
+    else if P.validCleanup then cleanupLoop P dir cacheSize w 0 files
     else removeAll w dir (files.drop cacheSize)
+
+/-- `readLastRefresh` succeeds -/
+def lastRefreshOK (P : Params) (w : World) (dir : Path) : Bool :=
+  match readFile w (dir ++ [lastRefreshFile]) with
+  | .ok d => P.timeParses d
+  | .error _ => false
+
+/-- `GetCachedOrRefresh` when the network side of the refresh fails: `getLatest` calls `getCached` (config
+plus last-refresh time), the fetch returns an error, the (stale) cached response is used if `getCached`
+succeeded, otherwise `getLatest` fails and the fallback is returned (`none`). -/
+def getCachedOrRefreshOffline (P : Params) (w : World) (dir : Path) : Option Nat :=
+  match getCachedConfig P w dir with
+  | none => none
+  | some v => if P.tolerantRefresh || lastRefreshOK P w dir then some v else none
 
 /-- the cache-writing part of one successful fetch (`fetchFromRemoteRaw` after validation, then
 `getLatest`'s cleanup): `isNewPayload` gate, `saveToCache` (its error is only logged), `cleanupOldVersions`. -/
@@ -165,6 +211,6 @@ def update (P : Params) (w : World) (dir : Path) (T : Tmps) (cacheSize now : Nat
     (data etag lm refresh : Bytes) : Tr :=
   let t1 : Tr := if isNewPayload w dir data then saveToCache P w dir T now data etag lm refresh
                  else { visited := [], last := w, ok := true }
-  t1.andThen fun w => cleanupOldVersions w dir cacheSize
+  t1.andThen fun w => cleanupOldVersions P w dir cacheSize
 
 end C45
